@@ -88,7 +88,7 @@ func runSend(client bool, bufN int, seq []msgSpec, recycled bool) *explore.Fail 
 	}
 	var wants []want
 	for _, m := range seq {
-		n := map[string]int{"0": 0, "3": 3, "S": S, "2S+1": 2*S + 1}[m.length]
+		n := map[string]int{"0": 0, "3": 3, "S": S, "2S+1": 2*S + 1, "70001": 70001}[m.length]
 		p := bytes.Repeat([]byte{'m'}, n)
 		ms.SetCompressed(m.compressed)
 		switch m.how {
@@ -103,6 +103,10 @@ func runSend(client bool, bufN int, seq []msgSpec, recycled bool) *explore.Fail 
 			w.FlushFragment()
 			sendCtl(m.ctlAfter, d, st)
 			w.Write(p[n/2:])
+		case "bytewise":
+			for i := range p {
+				w.Write(p[i : i+1])
+			}
 		case "writethrough-first":
 			w.WriteThrough(p[:n/2])
 			sendCtl(m.ctlAfter, d, st)
@@ -389,6 +393,16 @@ func main() {
 						}
 					}
 					rec(nil)
+				}
+			}
+			// a compressed message of more fragments than a 16-bit counter holds, then a plain one
+			for _, client := range []bool{false, true} {
+				for _, first := range []bool{true, false} {
+					client, first := client, first
+					seq := []msgSpec{{first, "70001", "bytewise", "none"}, {!first, "3", "write", "none"}}
+					t.DoN(70005, func() string { return fmt.Sprintf("client=%v buf=1 messages=%v", client, seq) }, func() *explore.Fail {
+						return runSend(client, 1+6, seq, false)
+					})
 				}
 			}
 			t.Outcome("rsv1-only-on-first-frame-of-compressed")
